@@ -104,6 +104,8 @@ STRUCT = dict(
     implicit_dim=dict(implicit=True, vec="extra_row", numeric=True),
     implicit_types=dict(implicit=True, vec="sparse", numeric=True),
     implicit_fd=dict(implicit=True, numeric=True, herm=True, fd_last=True),
+    zero_diagonal=dict(zero_h0=True),
+    legacy_three_blocks=dict(legacy=3, herm=True),       # lazily: wrapper only defined for two blocks
 )
 # accepted inputs that exercise further branches (some with a warning the oracle insists on)
 NOTES = dict(
@@ -112,8 +114,12 @@ NOTES = dict(
     h0_block_nondiagonal=dict(nondiag=True),                     # UserWarning "Cannot confirm ... diagonal"
     implicit_ok=dict(implicit=True, numeric=True, herm=True,     # DeprecationWarning for atol / eps
                      kw=dict(solver_options=dict(atol=1e-10, eps=0.05))),
+    single_block_nodesignation=dict(single=True),                # neither indices nor eigenvectors: one block
+    fd_bare_array_single=dict(single=True, fd_array=True),       # bare mask array with a single block
+    legacy_ok=dict(legacy=2, herm=True),                         # one-argument solver, two blocks: deprecated
 )
-EXPECT_WARNING = dict(h0_block_nondiagonal="UserWarning", implicit_ok="DeprecationWarning", h0_undecided="UserWarning")
+EXPECT_WARNING = dict(h0_block_nondiagonal="UserWarning", implicit_ok="DeprecationWarning", h0_undecided="UserWarning",
+                      legacy_ok="DeprecationWarning")
 
 
 def make_struct_vcase(rng, name, fmt):
@@ -125,8 +131,18 @@ def make_struct_vcase(rng, name, fmt):
     if herm is None:
         herm = rng.random() < 0.8
     min_blocks = max(spec.get("min_blocks", 1), 2 if spec.get("implicit") else 1)
-    c = copy.deepcopy(base_case(rng, fmt=fmt, min_blocks=min_blocks, hermitian=herm,
-                                need_big_block=bool(spec.get("nondiag") or spec.get("listmask"))))
+    c = None
+    for _ in range(300):
+        c = copy.deepcopy(base_case(rng, fmt=fmt, min_blocks=max(min_blocks, spec.get("legacy", 1)), hermitian=herm,
+                                    need_big_block=bool(spec.get("nondiag") or spec.get("listmask"))))
+        nbc = max(c["sub"]) + 1
+        if spec.get("legacy") and nbc != spec["legacy"]:
+            continue
+        if spec.get("single") and nbc != 1:
+            continue
+        break
+    else:
+        return None
     bl = blocks_of(c)
     nb = len(bl)
     v = dict(case=c, designation="indices", container=spec.get("container", "dict"), solver=None, damages=[],
@@ -156,6 +172,22 @@ def make_struct_vcase(rng, name, fmt):
         if not c["hermitian"]:
             set_entry(c, zkey(c), b, a, G(Fr(1, 2)), herm=False)
         c["fully"] = None if isinstance(c["fully"], dict) else c["fully"]
+    if spec.get("zero_h0"):
+        c["H"][zkey(c)] = gq.enc(gq.zeros(len(c["sub"])))
+        c["fully"] = None
+    if spec.get("single"):
+        v["designation"] = "none"
+        c["fully"] = None
+        if spec.get("fd_array"):
+            E = energies(c)
+            v["fd_override"] = dict(array=gen.rand_mask(rng, [E[k] for k in bl[0]], symmetric=c["hermitian"]))
+    if spec.get("legacy"):
+        v["solver"] = "one"
+        c["fully"] = None
+        if spec["legacy"] == 3:
+            # make sure the pair (0, 2) is coupled at first order: its Sylvester equation is requested
+            k1 = gen.key(orders_of_total(c["nparam"], 1)[0])
+            set_entry(c, k1, bl[0][0], bl[2][0], G(1), herm=True)
     if name in STRUCT:
         v["damages"].append(dict(kind=name))
     return v
@@ -702,6 +734,9 @@ def abstract(v):
                     sched[n].append("UsePair %d %d" % (d["p"], d["q"]))
                     if not herm:
                         sched[n].append("UsePair %d %d" % (d["q"], d["p"]))
+    if v["solver"] == "one" and any(d["kind"] == "legacy_three_blocks" for d in v["damages"]):
+        for n in (1, 2):
+            sched[n].append("UsePair 0 2")
     for n in (1, 2):
         for o in orders_of_total(c["nparam"], n):
             sched[n].append("UseTerm [%s]" % "; ".join(map(str, o)))
